@@ -63,14 +63,18 @@ class Rule :
                 ):
                     return
 
-            if hasattr(self, 'args') and m.body is not None:
+            # a message without a body has no arguments: it satisfies no
+            # argument constraint
+            body = m.body if m.body is not None else ()
+
+            if hasattr(self, 'args'):
                 for idx, val in self.args:
-                    if idx >= len(m.body) or m.body[idx] != val:
+                    if idx >= len(body) or body[idx] != val:
                         return
 
-            if hasattr(self, 'arg_paths') and m.body is not None:
+            if hasattr(self, 'arg_paths'):
                 for idx, val in self.arg_paths:
-                    if idx >= len(m.body) or not m.body[idx].startswith(val):
+                    if idx >= len(body) or not body[idx].startswith(val):
                         return
 
             # XXX arg0namespace -- Not quite sure how this one works
